@@ -73,7 +73,7 @@ PROPS['C03'] = dict(
     explanation='Multigraph contract of the four edge operations on all four flavours: exactly-one-edge effects (P1/P2/P3), try_connect guarded by the existence query with the right '
                 'footprint (T1), disconnect result/error set (T2), order-preserving list operations only (ENC-b: push/remove/clear; RM1 first match), one allocation per node so any '
                 'handle is the same node (ENC-d), and no conflicting re-acquisition of a node cell anywhere (G3: no RefCell double borrow panic / RwLock self-deadlock, with every pair of '
-                'nodes assumed to alias, so self-loops are covered).',
+                'nodes assumed to alias, so self-loops are covered). The boolean observers are evaluated over the atoms EMPTY(list) / FOUND(list, key) and must have exactly the truth table their name promises (OBS-Q); try_connect\'s branch is decided by the existence query alone (T1, all join alternatives); undirected isolate removes the IN half first so that a self-loop cannot shift the list under the live iterator (P3).',
     decides='effects, guards, error sets and guard lifetimes on every MIR path',
     does_not_decide='panics from upgrade().unwrap() on a dropped peer (excluded by "live nodes"); the two unwraps in isolate (unreachable while C01/C02 hold)',
     assumptions=STD,
@@ -91,7 +91,7 @@ PROPS['C20'] = dict(
 PROPS['C04'] = dict(
     rules=kernel_pack(('Bfs',), FLAVOURS, 'path') + [_r('RESMAP', dp.result_map, FLAVOURS, ('Bfs',), 'path'), _r('TR1', dp.tr1, DIRECTED, ('Bfs',), 'path'), _r('METHOD', rk.method, FLAVOURS), _r('BT', rb.bt, FLAVOURS, only=BT5), _r('PATH', rb.path_api, FLAVOURS)],
     explanation='Breadth-first kernels (12) and their entry points: FIFO frontier (BFS1), discovery discipline (DISC i-vii), exhaustive expansion (EXH), '
-                'callback-first (EXEC1), orientation (TR0/TR1), seeding (INIT), result mapping (RESMAP), back-tracking (BT) decided on MIR by dominance and provenance.',
+                'callback-first (EXEC1), orientation (TR0/TR1), seeding (INIT), result mapping (RESMAP), back-tracking (BT) decided on MIR by dominance and provenance. Entry points only read the search configuration (CONF) and answer through a kernel run or a shortcut that is sound for every arm (ENTRY-PASS).',
     decides='the structural premises of the textbook BFS argument on every path of every kernel and entry point',
     does_not_decide='the textbook step from (FIFO + mark-on-discovery + exhaustive expansion + back-tracking join) to "shortest path iff reachable"; VecDeque/HashSet semantics',
     assumptions=['std VecDeque/HashSet/Vec behave as documented', 'payload trait impls (K: Eq+Hash, E: Clone) are pure'],
@@ -100,7 +100,7 @@ PROPS['C04'] = dict(
 PROPS['C05'] = dict(
     rules=kernel_pack(('Dfs',), FLAVOURS, 'path') + [_r('RESMAP', dp.result_map, FLAVOURS, ('Dfs',), 'path'), _r('TR1', dp.tr1, DIRECTED, ('Dfs',), 'path'), _r('METHOD', rk.method, FLAVOURS), _r('BT', rb.bt, FLAVOURS, only=BT5), _r('PATH', rb.path_api, FLAVOURS)],
     explanation='Depth-first kernels (12 recursive) and entries: LIFO frontier with push(FAR) immediately followed by the recursive call (DFS1), discovery discipline (DISC), no early exit and '
-                'found-propagation (EXH), callback-first (EXEC1), orientation, seeding, result mapping and back-tracking (BT).',
+                'found-propagation (EXH), callback-first (EXEC1), orientation, seeding, result mapping and back-tracking (BT). Entry points only read the search configuration (CONF) and answer through a kernel run or a sound shortcut (ENTRY-PASS); FOUND behind a descent is confined to its success outcome (EXH).',
     decides='the structural premises of "DFS finds a simple path iff reachable" on every path of every kernel',
     does_not_decide='the textbook step from those premises to the graph-theoretic statement',
     assumptions=STD,
@@ -109,7 +109,7 @@ PROPS['C06'] = dict(
     rules=kernel_pack(('Pfs',), FLAVOURS, 'path') + [_r('PFS1', dp.pfs1, FLAVOURS, 'path'), _r('RESMAP', dp.result_map, FLAVOURS, ('Pfs',), 'path'), _r('TR1', dp.tr1, DIRECTED, ('Pfs',), 'path'),
                                            _r('METHOD', rk.method, FLAVOURS), _r('BT', rb.bt, FLAVOURS, only=BT5), _r('PATH', rb.path_api, FLAVOURS), _r('ORD-NODE', rm.ord_node, FLAVOURS), _r('PFS-SEARCH', rm.pfs_search, FLAVOURS), _r('OPT', dp.opt_rules, FLAVOURS, 'priority')],
     explanation='Priority-first kernels (12) and entries: BinaryHeap pop/push with Reverse exactly on the Min arms (PFS-FRONT, PFS1), discovery discipline incl. closing edge recorded before '
-                'FOUND (DISC iv/v), no early exit, node ordering by value identically through Ord and PartialOrd and equality by key (ORD-NODE), search = last node of search_path.',
+                'FOUND (DISC iv/v), no early exit, node ordering by value identically through Ord and PartialOrd and equality by key (ORD-NODE), search = last node of search_path. min()/max() store the priority their name says (OPT); kernels and entries only read the configuration (CONF).',
     decides='heap discipline, Min/Max dispatch, comparison impls, discovery discipline',
     does_not_decide='BinaryHeap pop-minimum contract (trusted std); ties',
     assumptions=STD,
@@ -119,7 +119,7 @@ PROPS['C07'] = dict(
            _r('TR0', rk.tr0, ALLF, FLAVOURS), _r('INIT', dp.init, FLAVOURS), _r('ENTRY-PASS', dp.entry_pass, FLAVOURS), _r('CONF', dp.conf_ro, FLAVOURS), _r('METHOD', rk.method, FLAVOURS), _r('REV', rm.rev, FLAVOURS), _r('IT2', rg.it2, FLAVOURS), _r('ORIENT', re_.orient, FLAVOURS)],
     explanation='All 48 kernels: the callback runs first and exactly once per yielded edge (EXEC1), a rejected edge neither marks, records nor extends reachability (DISC i), the edge handed '
                 'over is the live iterator item or its value-preserving reverse (DISC vi/vii, REV, IT2), every reachable node is expanded once and completely (EXH, DISC ii/iii, INIT), '
-                'and the dispatcher maps Empty/ForEach/Filter correctly (METHOD).',
+                'and the dispatcher maps Empty/ForEach/Filter correctly (METHOD). The ForEach/Filter callback call is on every path of its dispatcher arm (METHOD); entries answer through a kernel run (ENTRY-PASS).',
     decides='callback position/multiplicity and filter semantics on every path',
     does_not_decide='the step to "every reachable edge exactly once" (textbook, from the premises)',
     assumptions=STD,
@@ -130,7 +130,7 @@ PROPS['C08'] = dict(
            _r('P1', re_.p1_connect, DIRECTED), _r('P2', re_.p2_disconnect_directed, DIRECTED), _r('P3', re_.p3_isolate, DIRECTED), _r('RM1', re_.rm1_first_match, DIRECTED), _r('ADJ-PRIM', re_.adj_prim, DIRECTED)],
     explanation='Directed flavours: every kernel has a well-formed orientation signature (OUT = iter_out + item, IN = iter_in + reversed item; TR0), every entry point sends the Outbound arm '
                 'to an OUT kernel and the Inbound arm to an IN kernel (TR1, 28 arms per flavour), constructors default to Outbound and only transpose() stores Inbound (TR2), reverse '
-                'swaps endpoints and keeps the value (REV), iter_in reads the IN list and presents (peer, self) (ORIENT); the IN lists mirror the OUT lists entry for entry (P1/P2/P3/RM1 of C01), which is what makes a stored edge u->v with value e come back as Edge(v, u, e).',
+                'swaps endpoints and keeps the value (REV), iter_in reads the IN list and presents (peer, self) (ORIENT); the IN lists mirror the OUT lists entry for entry (P1/P2/P3/RM1 of C01), which is what makes a stored edge u->v with value e come back as Edge(v, u, e). The kernel reached under Inbound follows the same discipline as the one under Outbound (TR-PAIR: idiom-invariant facts on the outcome edges); the transposition flag is never written outside transpose() (CONF, TR2).',
     decides='dispatch tables and orientation of every kernel',
     does_not_decide='nothing beyond the per-kernel search properties C04-C10, which are checked for IN kernels exactly as for OUT kernels',
     assumptions=STD,
@@ -146,7 +146,7 @@ PROPS['C09'] = dict(
 PROPS['C10'] = dict(
     rules=kernel_pack(('Order',), FLAVOURS) + [_r('ORD1', rk.ord1, FLAVOURS), _r('ORD2', rm.ord2, FLAVOURS), _r('ORD2d', rm.ord2_derived, FLAVOURS), _r('TR1', dp.tr1, DIRECTED, ('Order',)), _r('TR2', dp.tr2, DIRECTED), _r('OPT', dp.opt_rules, FLAVOURS, 'ordering'), _r('METHOD', rk.method, FLAVOURS)],
     explanation='12 ordering kernels and 8 entries: emission before the recursive call in kernels selected by the Pre arm and after it in kernels selected by the Post arm (ORD1), assembly '
-                'root-first / root-last with node list = targets of the recorded edges (ORD2), one entering edge per reachable non-root node (DISC), LIFO descent (DFS1), no early exit (EXH).',
+                'root-first / root-last with node list = targets of the recorded edges (ORD2), one entering edge per reachable non-root node (DISC), LIFO descent (DFS1), no early exit (EXH). preorder()/postorder() build an Order with the ordering their name says (OPT).',
     decides='emission position, assembly and discovery discipline of the ordering kernels',
     does_not_decide='that ORD1+DFS1 yield a DFS discovery / finishing order (textbook)',
     assumptions=STD,
@@ -157,7 +157,7 @@ PROPS['C17'] = dict(
     explanation='Only the lock-discipline clauses are decidable statically: no node lock is acquired while another node-lock guard is held, directly or through any callee (LK1: with '
                 'per-node locks and no lock order this is necessary against ABBA and re-entrant read-behind-writer deadlocks, and with LK2 sufficient for deadlock freedom among gdsl\'s '
                 'own locks); no user callback or iterator step runs under a lock (LK2); no panic-capable call under a write guard (LK3: poisoning); every public mutator is one critical '
-                'section, otherwise it is reported with the multiset of its sections (LK4: a necessary condition of serialisability). Iterators lock once per step (IT1/IT2).',
+                'section, otherwise it is reported with the multiset of its sections (LK4: a necessary condition of serialisability). Iterators lock once per step (IT1/IT2). No index computed under one acquisition is used under another (LK5); no try_read/try_write/try_lock whose failure becomes a data outcome (LK-TRY).',
     decides='hold-and-wait freedom, callback-under-lock freedom, poisoning sites, number and owners of critical sections per operation',
     does_not_decide='the serialisation order of schedules (linearizability), starvation, std RwLock itself; LK4 reports non-atomic operations but cannot prove atomic ones serialisable',
     assumptions=STD + ['payload trait impls do not take gdsl locks'],
@@ -171,7 +171,7 @@ PROPS['C16'] = dict(
     explanation='Decided for all K, N, E by the trait solver on generic obligations: with K,N,E: Send+Sync the sync Node/Edge/Graph are Send and Sync (12 positive witnesses); with any '
                 'one of the six bounds removed the obligation is rejected with E0277 on the assert line (72 negative witnesses, each with a compiling twin); the plain types are never '
                 'Send/Sync (12); concrete Cell/Rc/MutexGuard/raw-pointer payloads in every position are rejected. UNS lists unsafe impls/blocks from HIR and requires Send+Sync on every '
-                'parameter of each unsafe impl Send|Sync.',
+                'parameter of each unsafe impl Send|Sync. UNS-struct: every unsafe impl Send/Sync asserts no more than the structural auto-trait derivation gives for the fields when K, N, E are Send + Sync.',
     decides='the Send/Sync obligations for every instantiation of K, N, E (universally quantified type-checking), on the metadata of the current tree',
     does_not_decide='soundness of std Arc/RwLock themselves; the "consequently no data race" clause follows from Rust\'s safety guarantee given no unsafe code (UNS)',
     assumptions=['rustc trait solver is sound for auto traits', 'no unsafe code beyond the listed unsafe impls (checked by UNS)'],
@@ -200,7 +200,7 @@ PROPS['C18'] = dict(
                 '"key absent" branch with (clone(key(node)), clone(node)) and returns false/true accordingly, nothing else mutates or replaces the map (MAP); roots/leaves/orphans filter '
                 'the members by exactly is_root/is_leaf/is_orphan, un-negated (VIEW, with the observers\' list footprints from OBS); the DOT exports write one node statement per member and '
                 'one "u -> v" statement per edge of the member\'s iterator, arguments in that order, loops run to exhaustion, each attribute callback is called once per graph / member / '
-                'edge with the right arguments and its text goes into the same statement (DOT); handles handed out are clones of the stored handle, i.e. the same allocation (ENC-d).',
+                'edge with the right arguments and its text goes into the same statement (DOT); handles handed out are clones of the stored handle, i.e. the same allocation (ENC-d). DOT-skel: the literal text of each exporter, concatenated per loop nest in execution order, agrees between the flavours.',
     decides='delegation shape, branch placement and argument provenance of every container method and DOT writer',
     does_not_decide='HashMap semantics; the literal DOT syntax beyond the presence and order of the placeholders',
     assumptions=STD,
@@ -223,7 +223,7 @@ PROPS['C13'] = dict(
                 'connect on the way (DE1); no unwrap/expect/panic/indexing/arithmetic assert in deserialize, visit_seq or their closures (DE2); the graph is built only through '
                 'Graph::insert and Node::connect with arguments taken from document elements (DE3), so the mirror/symmetry invariants follow from C01/C02 (P1) and repeated keys are '
                 'refused by insert (MAP); a missing element leaves the list empty and both lists are walked by plain for-loops (DE4); no conflicting re-borrow on the insert/connect '
-                'sequence even when both endpoints are the same node (G3).',
+                'sequence even when both endpoints are the same node (G3). Ok(..) is returned only after both document lists were walked to their end (DE5, must-pass-through).',
     decides='absence of panic sites and of unguarded connects in the reader, and that only the two invariant-preserving builders are used',
     does_not_decide='panics or hangs inside the format crates; allocation failure on huge documents',
     assumptions=STD + ['serde format crates do not panic on malformed input'],
